@@ -46,7 +46,7 @@ PROPOSED_FINDINGS = [
      "witness": {"src": "match self.st:\n case 0 if self.a.get()==1: self.st=1\n case _: self.st=2", "history": [{"a": 0}], "signal": "st", "sim": 2, "verilog": 0},
      "what": "`case V if guard:` becomes `V: if (guard) ...` inside the Verilog case arm: when the guard fails Python falls through to the "
              "following cases / `case _`, the Verilog does nothing"},
-    {"id": "C02-match-no-default", "property": "C02", "status": "known", "anchor": "py4hw/transpilation/python2verilog_transpilation.py:1177",
+    {"id": "C02-match-no-default", "property": "C02", "status": "fixed", "fixed_by": "b2612d8", "anchor": "py4hw/transpilation/python2verilog_transpilation.py:1177",
      "class_expr": "r.get('kind')=='unparseable' and 'match-no-default' in r.get('reasons', [])",
      "witness": {"src": "match self.st:\n case 0: self.st=1\n case 1: self.st=2"},
      "what": "a `match` without `case _` is emitted as `default:endcase` (IEEE 1364-2005 A.6.7 requires a statement or `;` after `default:`)"},
@@ -85,7 +85,7 @@ PROPOSED_FINDINGS = [
      "witness": {"src": "self.r.prepare(self.a.get() + 1.5)"},
      "what": "a float constant in the method body is not refused: `r.prepare(a + 1.5)` is emitted as `r<=a+1.5;` (a Verilog real, rounded on assignment) "
              "while the Python method raises TypeError in Wire.prepare (float & int); only constructor constants are checked for int-ness"},
-    {"id": "C02-guarded-wildcard", "property": "C02", "status": "known", "anchor": "py4hw/transpilation/python2verilog_transpilation.py:381",
+    {"id": "C02-guarded-wildcard", "property": "C02", "status": "fixed", "fixed_by": "23b4fbe", "anchor": "py4hw/transpilation/python2verilog_transpilation.py:381",
      "class_expr": "r.get('construct')=='match-guarded-wildcard' and r.get('kind') in ('mismatch','x-after-write','x-state','x-consequence','accepted-unsupported')",
      "witness": {"src": "match a & 3:\n case 0: r.prepare(7)\n case _ if a > 0: r.prepare(5)\n case _: r.prepare(2)", "history": [{"a": 1}], "signal": "r", "sim": 5, "verilog": 2},
      "what": "`case _ if guard:` is taken as the Verilog `default:` with the guard silently dropped (ReplaceMatch tests the wildcard before looking "
@@ -106,19 +106,21 @@ PROPOSED_FINDINGS = [
 
 
 def fail(res, what, replay):
-    """res.fail, with the proposed findings consulted in addition to known_findings.json (an entry proposed here wins over a
-    listed entry of the same id whose class predicate is older)"""
-    listed = {k.get('id'): k for k in load_known()}
+    """the property's oracle failed on the implementation.  Known-finding matching is done here over BOTH lists: an entry of
+    PROPOSED_FINDINGS wins over a listed entry of the same id (newer class predicate / newer status); only status "known"
+    suppresses - a failure in the class of a finding marked "fixed" here is a recurrence and therefore a VIOLATION, whatever
+    known_findings.json still says about that id."""
+    mine = {k['id']: k for k in PROPOSED_FINDINGS}
     for k in PROPOSED_FINDINGS:
-        lk = listed.get(k['id'])
-        if (lk is None or lk.get('class_expr') != k['class_expr']) and common._matches(k, what, replay):
+        if k.get('status') == 'known' and common._matches(k, what, replay):
             res.known_hits.append((k, what))
-            if not any('pending merge' in n for n in res.notes):
-                res.notes.append('C02 findings pending merge/update in known_findings.json; class predicates applied from harness/c02.py')
             return True
-    n = len(res.failures)
-    res.fail(what, replay)
-    return len(res.failures) == n
+    for k in load_known():
+        if k.get('property') == 'C02' and k.get('status') == 'known' and k.get('id') not in mine and common._matches(k, what, replay):
+            res.known_hits.append((k, what))
+            return True
+    res.failures.append({'what': what, 'replay': replay})
+    return False
 
 
 # ------------------------------------------------------------------------------------------------ repo classes
@@ -611,6 +613,21 @@ class WNoDefault(py4hw.Logic):
                 self.st = 0
         self.r.prepare(self.st)
 
+class WGuardedWildcard(py4hw.Logic):
+    def __init__(self, parent, name, a, b, r):
+        super().__init__(parent, name)
+        self.a = self.addIn('a', a)
+        self.b = self.addIn('b', b)
+        self.r = self.addOut('r', r)
+    def clock(self):
+        match self.a.get() & 3:
+            case 0:
+                self.r.prepare(7)
+            case _ if self.a.get() > 0:
+                self.r.prepare(5)
+            case _:
+                self.r.prepare(2)
+
 class WOrValue(py4hw.Logic):
     def __init__(self, parent, name, a, b, r):
         super().__init__(parent, name)
@@ -662,7 +679,7 @@ class WDoublePut(py4hw.Logic):
         self.r = self.addOut('r', r)
     def propagate(self):
         self.r.put(self.a.get())
-        self.r.put(self.r.get() + self.b.get())
+        self.r.put(self.r.get() + self.b.get() + 0)
 
 class WPutInClock(py4hw.Logic):
     def __init__(self, parent, name, a, b, r):
@@ -688,7 +705,10 @@ class WClash(py4hw.Logic):
 WITNESSES = [  # (class, history, expected finding id)
     ('WTernary', [{'a': 5, 'b': 0}], 'C02-ternary-not-verilog'),
     ('WGuard', [{'a': 0, 'b': 0}, {'a': 0, 'b': 0}], 'C02-guarded-case'),
-    ('WNoDefault', [{'a': 0, 'b': 0}], 'C02-match-no-default'),
+    # regression (fixed b2612d8): a match without `case _` must now parse (`default:;`), be Tp.supported and agree cycle by cycle
+    ('WNoDefault', [{'a': 0, 'b': 0}, {'a': 0, 'b': 0}, {'a': 1, 'b': 0}, {'a': 0, 'b': 0}], 'regression:agree'),
+    # regression (fixed 23b4fbe): `case _ if g:` must be refused by the real transpiler
+    ('WGuardedWildcard', [{'a': 1, 'b': 0}, {'a': 0, 'b': 0}, {'a': 3, 'b': 0}], 'regression:refuse'),
     ('WOrValue', [{'a': 5, 'b': 0}, {'a': 5, 'b': 0}], 'C02-bool-value'),
     ('WCmpRhs', [{'a': 3, 'b': 3}, {'a': 3, 'b': 3}], 'C02-cmp-rhs-precedence'),
     ('WNarrow', [{'a': 200, 'b': 100}, {'a': 200, 'b': 100}], 'C02-narrow-context'),
@@ -778,10 +798,21 @@ def run_all(res, tier, rng, tmpdir, quick):
     for cname, hist, fid in WITNESSES:
         try:
             d = Dut('witness/' + cname, getattr(wm, cname), [('a', 8, 'in'), ('b', 8, 'out' if cname == 'WPutInClock' else 'in'), ('r', 8, 'out')],
-                    src=cname, tags=['match-no-default'] if cname == 'WNoDefault' else [], profile='witness')
+                    src=cname, tags=['refuse:match-guarded-wildcard'] if cname == 'WGuardedWildcard' else [], profile='witness')
         except Exception as e:
             res.broken.append(('correspondence', 'witness-build', f'{cname}: {type(e).__name__}: {e}'))
             continue
+        if fid == 'regression:refuse':
+            res.hist('regression', cname + (':refused' if d.gen_err else ':ACCEPTED'))
+            if not d.gen_err:
+                fail(res, f'witness/{cname}: `case _ if guard:` is outside the subset but the transpiler accepted it again (regression of 23b4fbe)',
+                     dict(kind='accepted-unsupported', construct='match-guarded-wildcard', design='witness/' + cname, supported=None, reasons=[],
+                          text=(d.text or '')[-400:]))
+        if fid == 'regression:agree':
+            res.hist('regression', cname + (':parses' if d.tree is not None else ':REFUSED-OR-UNPARSEABLE'))
+            if d.gen_err:
+                fail(res, f'witness/{cname}: a match without `case _` is in the subset but the transpiler refuses it ({d.gen_err})',
+                     dict(kind='refused-supported', design='witness/' + cname, supported=True, reasons=[]))
         bt.add(d, hist, 'witness')
     # ---- (2) repo classes
     covered = set()
@@ -824,6 +855,8 @@ def run_all(res, tier, rng, tmpdir, quick):
         res.hist('exhaustive_blocks', label, len(hist))
     bt.run()
     for cname, hist, fid in WITNESSES:
+        if fid.startswith('regression:'):
+            continue          # any difference on these is a VIOLATION through the ordinary oracle (no finding covers them any more)
         hit = any(k['id'] == fid and what.startswith('witness/' + cname + ':') for k, what in res.known_hits)
         res.hist('witness_reproduced', fid, 1 if hit else 0)
         if not hit:
